@@ -12,14 +12,16 @@ import Hpbf.Expr
 import Hpbf.Ir
 import Hpbf.Driver
 import Hpbf.Driver2
+import Hpbf.Driver3
 
 open Hpbf
 
 partial def loop (h : IO.FS.Stream) (out : IO.FS.Stream) : IO Unit := do
   let line ← h.getLine
   if line.isEmpty then return ()
-  let reply := Driver2.handle (line.trimAscii.toString)
+  let reply := Driver3.handle (line.trimAscii.toString)
   out.putStrLn reply
+  out.flush
   loop h out
 
 def main : IO Unit := do
